@@ -398,7 +398,7 @@ fn exec_script(session: &mut minimq::Session<'_>, script: &[SStep]) {
             // timed variant: after a cancellation the application is busy elsewhere for a while
             // (never in the uncancelled run, whose schedule tape is all zero)
             with(|w| {
-                if w.cfg.keepalive_s > 0 && w.results.last().is_some_and(|r| r.ends_with(":Cancelled")) && w.s_chance(500, 1000) {
+                if w.cfg.keepalive_s > 0 && w.cfg.p_cancel > 0 && w.results.last().is_some_and(|r| r.ends_with(":Cancelled") && !r.starts_with("poll:")) && w.s_chance(500, 1000) {
                     let d = [600 * clock::US_PER_MS, 900 * clock::US_PER_MS, 1400 * clock::US_PER_MS][w.s_choose(3) as usize];
                     w.probe("twin_pause_after_cancellation");
                     w.log(|| format!("app: does something else for {d} us after the cancellation"));
